@@ -95,12 +95,14 @@ struct payload {
 static _Atomic uint64_t next_id = 1;
 static _Atomic unsigned long long payload_errors;
 
+#define LPS_PER_THR 4 /* several LPs per consumer thread: ties between events of different LPs meet in one private heap */
+
 static struct lp_msg *make_msg(vrng_t *r, unsigned dest, double base_t)
 {
 	unsigned big = vrng_below(r, 8) == 0;
 	unsigned sz = big ? 48 : sizeof(struct payload);
 	struct lp_msg *m = msg_allocator_alloc(sz);
-	m->dest = dest;
+	m->dest = (uint64_t)dest * LPS_PER_THR + vrng_below(r, LPS_PER_THR);
 	switch(tie_mode) {
 		case 0: m->dest_t = base_t + vrng_unit(r) * 4.0; break;               /* continuous, almost no ties */
 		case 1: m->dest_t = (double)vrng_below(r, 6); break;                 /* dense ties */
@@ -268,7 +270,7 @@ static void check_consumer(unsigned c, struct ins *all, size_t n_all, struct ins
 	struct ins *mine = malloc(sizeof(*mine) * (n_all + 1));
 	size_t nm = 0;
 	for(size_t i = 0; i < n_all; ++i)
-		if(all[i].m->dest == c)
+		if(all[i].m->dest / LPS_PER_THR == c)
 			mine[nm++] = all[i];
 	qsort(mine, nm, sizeof(*mine), cmp_ins_ret);
 	hp = malloc(sizeof(*hp) * (nm + 1));
@@ -388,8 +390,8 @@ int main(int argc, char **argv)
 	if(C > T)
 		C = T;
 	global_config.n_threads = T;
-	global_config.lps = T;
-	n_lps_node = T; /* one LP per thread: lid_to_rid(dest) == dest */
+	global_config.lps = T * LPS_PER_THR;
+	n_lps_node = T * LPS_PER_THR; /* LPS_PER_THR LPs per thread: lid_to_rid(dest) == dest / LPS_PER_THR */
 	lid_node_first = 0;
 	logs = calloc(T, sizeof(*logs));
 	msg_queue_global_init();
